@@ -31,6 +31,32 @@ def gen(c=None):
     return res
 
 
+def drive_loaders(c):
+    """every loader entry point over the structure-aware fault list: traces validated by Trace_Loader (the violations of C02 and
+    of C03 - load time / load limits - are both produced here; each check keeps its own)"""
+    g = gen(c)
+    faults = os.path.join(vlib.WORK, "C02", "loader_faults.ndjson")
+    n_shards = 8
+    def one(k):
+        trace = os.path.join(c.workdir, f"trace-{k}.ndjson" if c.pid == "C02" else f"loader-{k}.ndjson")
+        crashes = vlib.run_contained_indexed("c02", trace, extra=["--seed", c.seed, "--tier", c.tier, "--faults", faults, "--shard", k, "--shards", n_shards], case_timeout=10, mem_mb=2048)
+        return trace, crashes
+    with ThreadPoolExecutor(max_workers=n_shards) as ex:
+        res = list(ex.map(one, range(n_shards)))
+    traces = [t for t, _ in res]
+    crashes = [x for _, cr in res for x in cr]
+    n0 = len(c.viols)
+    c.validate(SPEC, "Trace_Loader", "Trace_Loader.cfg", traces, key, procs=n_shards, timeout=3000)
+    by_case = {(os.path.basename(t), str(cr["case"])): cr for (t, crs) in res for cr in crs}
+    for v in c.viols[n0:]:
+        ev = v.get("event") or {}
+        if ev.get("ev") == "crash":
+            k = (os.path.basename(v["trace"]), str(ev.get("case")))
+            if k in by_case:
+                v["event"] = by_case[k]
+    return g, traces, crashes
+
+
 def run():
     c = Check("C02", level="fault_enumeration")
     thorough = c.tier == "thorough"
@@ -38,25 +64,7 @@ def run():
     c.mc("spec/codec", "MC_Sauce", "MC_Sauce.cfg", workers=4, timeout=1200)
     c.mc("spec/codec", "MC_Fonts", "MC_Fonts.cfg", workers=4, timeout=1200)
     c.mc("spec/codec", "MC_Tdf", "MC_Tdf.cfg", workers=4, timeout=1200)
-    g = gen(c)
-    faults = os.path.join(vlib.WORK, "C02", "loader_faults.ndjson")
-    n_shards = 8
-    def one(k):
-        trace = os.path.join(c.workdir, f"trace-{k}.ndjson")
-        crashes = vlib.run_contained_indexed("c02", trace, extra=["--seed", c.seed, "--tier", c.tier, "--faults", faults, "--shard", k, "--shards", n_shards], case_timeout=10, mem_mb=2048)
-        return trace, crashes
-    with ThreadPoolExecutor(max_workers=n_shards) as ex:
-        res = list(ex.map(one, range(n_shards)))
-    traces = [t for t, _ in res]
-    crashes = [x for _, cr in res for x in cr]
-    c.validate(SPEC, "Trace_Loader", "Trace_Loader.cfg", traces, key, procs=n_shards, timeout=3000)
-    by_case = {(os.path.basename(t), str(cr["case"])): cr for (t, crs) in res for cr in crs}
-    for v in c.viols:
-        ev = v.get("event") or {}
-        if ev.get("ev") == "crash":
-            k = (os.path.basename(v["trace"]), str(ev.get("case")))
-            if k in by_case:
-                v["event"] = by_case[k]
+    g, traces, crashes = drive_loaders(c)
     c.sample_from(traces[0], 3, skip_reset=False)
     loads = sum(int(r.get("r4", 0)) for r in c.reports)
     c.evaluations = loads
@@ -74,9 +82,10 @@ def run():
     c.extra["distinct_nontrivial"] = loads
     c.extra["mutation_classes"] = len(kinds)
     c.rule = ("seed files from the engine's own writers (14 formats x 4 variants incl. SAUCE + comments, two-font XBin; PSF1/PSF2/raw fonts; TDF bundles of each type; 5 palette "
-              "formats) x {every truncation, every header byte / u16 / u32 extreme in the first 48 bytes, 2738 structure-aware faults computed by TLC from Loader.tla (boundary -1/0/+1, "
-              "every numeric field 0/1/max-1/max/declared+-1), seeded 1-3 byte corruptions, the same bytes under every other extension}, IcyDraw chunk payload truncations/corruptions/"
-              "reorderings re-wrapped as PNG, terminal token streams loaded as files under every text extension, every 128-byte SAUCE tail class, random bytes with format magics; "
+              "formats + the ASE entry point) x {every truncation, every header byte / u16 / u32 extreme in the first 48 bytes, ~49k structure-aware faults computed by TLC from Loader.tla (boundary -1/0/+1, "
+              "every numeric field 0/1/max-1/max/declared+-1; a field value followed by truncation at every boundary of the RE-COMPUTED layout; every pair of numeric fields at {0,1,max-1,max}^2 "
+              "on the whole file and on the header-only file), seeded 1-3 byte corruptions, the same bytes under every other extension}, IcyDraw chunk payload truncations/corruptions/"
+              "reorderings re-wrapped as PNG, terminal token streams loaded as files under every text extension, CTerm font DCS payload classes followed by a sixel / text / resize inside a file, composed IcyDraw chunk faults, every 128-byte SAUCE tail class, random bytes with format magics; "
               "each load in a crash-contained worker. distinct_nontrivial = number of loads (each case is a distinct (entry point, byte string) pair by construction).")
     c.assumptions = ["panics are caught per load (dev profile); aborts/hangs kill the worker and are attributed through the progress file"]
     return c.finish()
